@@ -5,10 +5,12 @@
    parse_instantiation : when the module being instantiated is the CURRENT top, the top moves to the module
    being parsed - or, if that module already has references, to the parent of an arbitrary element of its
    reference set (list(...)[0] of a Python set; the loop stops after one level because a Definition has no
-   attribute `parent`). The choice from the set is modelled as nondeterminism: [elect] returns every top the
-   procedure can arrive at. `celldefine modules are read by parse_primitive, which elects nothing and skips
+   attribute `parent`). The choice from the set is modelled as nondeterminism: [elect_parsing] returns every top
+   the procedure can arrive at.
+   elect_top (end of parse_verilog): when exactly one module is instantiated by no other module, that module is
+   the top whatever was found while parsing. `celldefine modules are read by parse_primitive, which elects nothing and skips
    instances. Model only. *)
-From Coq Require Import List Arith Bool.
+From Coq Require Import List Arith Bool PeanoNat.
 Import ListNotations.
 
 (* module name, inside `celldefine, names of the instantiated modules in textual order *)
@@ -31,8 +33,23 @@ Definition step_mod (st : option (list nat) * list (nat * nat)) (d : dmod) : opt
     let r := fold_left (step_inst name) insts (tops, snd st) in
     (Some (fst r), snd r).
 
-Definition elect (doc : list dmod) : list nat :=
+(* the candidates that parse_module / parse_instantiation arrive at while the modules are parsed *)
+Definition elect_parsing (doc : list dmod) : list nat :=
   match fst (fold_left step_mod doc (None, [])) with Some l => l | None => [] end.
+
+(* elect_top, at the end of the file: the modules (not cells) that no OTHER module instantiates; when there is
+   exactly one it is the top, otherwise the candidate found while parsing is kept *)
+Definition instantiatedb (doc : list dmod) (m : nat) : bool :=
+  existsb (fun d : dmod => negb (Nat.eqb (fst (fst d)) m) && negb (snd (fst d)) && existsb (Nat.eqb m) (snd d)) doc.
+Definition roots (doc : list dmod) : list nat :=
+  nodup Nat.eq_dec (map (fun d : dmod => fst (fst d))
+                        (filter (fun d : dmod => negb (snd (fst d)) && negb (instantiatedb doc (fst (fst d)))) doc)).
+
+Definition elect (doc : list dmod) : list nat :=
+  match roots doc with
+  | [r] => [r]
+  | _ => elect_parsing doc
+  end.
 
 (* the design's root: a module (not a cell) that no module instantiates, every other module being instantiated *)
 Definition instantiated (doc : list dmod) (m : nat) : Prop :=
